@@ -243,8 +243,8 @@ func (l *listener) doExtract(kw Keyword, fnName string, list parser.IExpressionL
 	}
 	maxArgs := kw.MaxArgIndex()
 	count := len(list.AllExpression()) // 参数个数 (GetChildCount 会把逗号也算进去)
-	if maxArgs > count {
-		return
+	if maxArgs > count || kw.MsgID < 1 {
+		return // 参数不够 或者关键字没有指定 msgid 的位置(如 -keywords T:0): 没有 msgid 的条目会覆盖 POT 文件头
 	}
 	entry := new(translator.Entry)
 	if i := kw.MsgCtxt; i > 0 {
